@@ -118,6 +118,16 @@ class Ctx:
     def mod(self, rel):
         return self.src.mod(rel)
 
+    def defer(self, message: str):
+        """An 'undecided' verdict that must not keep the remaining rules from running: raised by raise_deferred() at the end."""
+        self.__dict__.setdefault("_deferred", []).append(message)
+
+    def raise_deferred(self):
+        d = self.__dict__.get("_deferred")
+        if d:
+            from pyab_static.core import FloorError
+            raise FloorError(d[0])
+
 
 def find_calls(node, name):
     return [n for n in ast.walk(node) if isinstance(n, ast.Call) and dotted(n.func) == name]
